@@ -394,7 +394,7 @@ def run(ctx: Ctx):
         "the float->unsigned cast is compared only where it is defined (C16_never_wraps proves it is defined for "
         "every generated setting, so every pixel is compared)",
     ]
-    ctx.max_violation_lines = 8     # one replay per repaired defect (7 fixed findings) when run on an unrepaired tree
+    ctx.max_reported = 8     # one replay per repaired defect (7 fixed findings) when run on an unrepaired tree
     gen = {}
     try:
         gen["Gen_C16.v"] = tr.translate(ctx.repo)
